@@ -42,7 +42,7 @@ def handle (args : List String) (impl : String) : Verdict :=
       -- device error), intact; an undamaged in-limit stream yields exactly the frames.
       let implOuts := impl.splitOn ";"
       let want := frames.map (fun f => "ok:" ++ toHex f)
-      let inLimit := frames.all (fun f => (wire f).length + 1 ≤ bufLen && (encode f).length ≤ maxLen + 1 && (encode f).length ≤ bufLen)
+      let inLimit := frames.all (fun f => (wire f).length ≤ bufLen && (encode f).length ≤ maxLen + 1 && (encode f).length ≤ bufLen)
       let body := implOuts.dropLast
       let okPre := body.take pre == want.take pre
       let okPost := (body.drop (body.length - post)) == want.drop (want.length - post) && post ≤ body.length
